@@ -71,9 +71,38 @@ func (x *Exec) lockOp(n *node, recv Value, pos token.Pos, what string) {
 		}
 		st.Locks[name] = true
 		delete(st.Locks, "?"+name)
-		// other threads may have changed everything the lock guards
+		// other threads may have changed everything the lock guards — except objects this activation allocated
+		// and has not published yet
+		saved := map[string]map[*Term]*Term{}
+		for _, g := range li.Guards {
+			for key, t := range st.Heap {
+				if key == g || strings.HasPrefix(key, g+".") {
+					for o := range st.FreshObjs {
+						if saved[key] == nil {
+							saved[key] = map[*Term]*Term{}
+						}
+						saved[key][o] = x.VC.Def("keep", Select(t, o))
+					}
+				}
+			}
+		}
 		for _, g := range li.Guards {
 			x.havocPrefixQuiet(n, g)
+		}
+		for key, m := range saved {
+			for o, v := range m {
+				st.noRecord++
+				x.objSet(st, key, o, v)
+				st.noRecord--
+			}
+			delete(st.Written, key)
+		}
+		for _, c := range li.Assumed {
+			env := x.lockEnv(st, n.guard, obj, owner, true)
+			g := env.EvalBool(c.Expr)
+			x.reportSpecErrors(env, "lockinv "+name, c)
+			x.VC.Assume(n.guard, g, "lockinv-assumed:"+name)
+			x.VC.Assumptions["assumed (not checked) under "+name+": "+c.Text] = true
 		}
 		for _, c := range li.Invs {
 			env := x.lockEnv(st, n.guard, obj, owner, true)
@@ -188,6 +217,32 @@ func (x *Exec) ghostSelectSend(n *node, ch, v Value, chosen *Term, s *ssa.Select
 
 func (x *Exec) ghostSpawn(fc *funcCtx, n *node, ins ssa.Instruction, c *ssa.CallCommon) {
 	x.VC.Assumptions["go statements: the spawned function is verified separately under its own contract; the spawner continues without it"] = true
+	// spawn rule: the precondition of a contracted callee is an obligation of the spawner (locks are not inherited)
+	callee, ok := c.Value.(*ssa.Function)
+	if !ok {
+		return
+	}
+	name := x.P.SpecName(callee)
+	fs, ok := x.P.Spec.Funcs[name]
+	if !ok || fs.Inline {
+		return
+	}
+	var args []Value
+	for _, a := range c.Args {
+		args = append(args, x.operandIn(n.env, a, n.st))
+	}
+	st := n.st.Clone()
+	st.Locks = map[string]bool{}
+	env := x.specEnvFor(fs, callee, args, st, n.guard)
+	env.old = st
+	for _, cl := range fs.CallCase().Clauses {
+		if cl.Kind != "requires" {
+			continue
+		}
+		g := env.EvalBool(cl.Expr)
+		x.reportSpecErrors(env, name, cl)
+		x.Oblige("pre", clauseLabel(cl)+" @go "+name, fmt.Sprint(ins.Pos()), ins.Pos(), n.guard, g, nil)
+	}
 }
 
 func (x *Exec) ghostAfterCall(n *node, fs *FuncSpec, name string, args, results []Value) {}
